@@ -326,10 +326,14 @@ class GuardWalk:
             if a is None and b is None:
                 return None
             if a is None:
-                return f_and(pc, f_not(t))
+                return b
             if b is None:
-                return f_and(pc, t)
-            return pc
+                return a
+            # both alternatives can fall through -- each possibly only in part (an early
+            # return nested inside): the continuation runs under the disjunction
+            if a == f_and(pc, t) and b == f_and(pc, f_not(t)):
+                return pc
+            return f_or(a, b)
         if isinstance(s, ast.Assert):
             self.expr(s.test, pc, loops)
             t = formula_of(s.test)
